@@ -530,10 +530,11 @@ class QuicConnection:
 
         :param now: The current time.
         """
-        network_path = self._network_paths[0]
-
-        if self._state in END_STATES:
+        if self._state in END_STATES or not self._network_paths:
+            # Nothing can be sent once the connection is closing, nor before a
+            # server has processed its first INITIAL packet (no peer address yet).
             return []
+        network_path = self._network_paths[0]
 
         # build datagrams
         builder = QuicPacketBuilder(
